@@ -1,7 +1,7 @@
 #!/usr/bin/env python3
 """refactor_eval.py <source dir with patch.diff meta.json> <control id>
 Evaluates an independently written BEHAVIOUR-PRESERVING refactoring of /repo: confirms in a scratch worktree that the suite and the
-triage oracle (tools/oracle/oracle.rs) stay green with the patch, then applies it to /repo, runs every quick check, undoes it, and stores
+triage oracle (tools/oracle/oracle.rs) stay green with the patch, then runs every quick check against a scratch copy of /repo with the patch applied, and stores
 the result under /verif/controls/<id>/ (patch.diff, meta.json incl. which checks raised an alarm = false alarms)."""
 import json, os, shutil, subprocess, sys, tempfile
 V = os.path.dirname(os.path.dirname(os.path.abspath(__file__)))
@@ -34,12 +34,14 @@ def main():
         sh("git -C %s worktree remove --force %s" % (REPO, wt))
         shutil.rmtree(wt, ignore_errors=True)
     fired = {}
-    rc, out = sh("git -C %s status --porcelain -- src" % REPO)
-    assert not out.strip(), "repo not clean: " + out
-    rc, out = sh("git -C %s apply %s" % (REPO, patch))
-    assert rc == 0, out
+    # the checks run against a scratch COPY of /repo with the patch applied (VERIF_REPO), never against /repo itself
+    scratch = tempfile.mkdtemp(prefix="rfrun-", dir="/tmp")
     try:
-        env = dict(os.environ, VERIF_EVIDENCE_DIR="/tmp/rf-ev", VERIF_REPLAY_DIR="/tmp/rf-rp", VERIF_TIER="quick")
+        repo = os.path.join(scratch, "repo")
+        rc, out = sh("rsync -a --exclude target --exclude .git %s/ %s/ && cd %s && patch -p1 -s -i %s" % (REPO, repo, repo, patch))
+        assert rc == 0, out
+        env = dict(os.environ, VERIF_REPO=repo, VERIF_CACHE_DIR=os.path.join(scratch, "cache"), VERIF_EVIDENCE_DIR=os.path.join(scratch, "ev"),
+                   VERIF_REPLAY_DIR=os.path.join(scratch, "rp"), VERIF_TIER="quick", VERIF_NO_BATTERY="1")
         for i in range(1, 18):
             pid = "C%02d" % i
             rc, out = sh("%s/checks/check %s --tier quick" % (V, pid), cwd=V, env=env)
@@ -47,7 +49,7 @@ def main():
             if rc != 0:
                 fired[pid] = {"exit": rc, "alarms": [k[:300] for k in keys][:6] or [out.strip()[-300:]]}
     finally:
-        sh("git -C %s checkout -- ." % REPO)
+        shutil.rmtree(scratch, ignore_errors=True)
     dst = os.path.join(V, "controls", cid)
     os.makedirs(dst, exist_ok=True)
     if os.path.abspath(src) != os.path.abspath(dst):
